@@ -395,4 +395,359 @@ theorem getL_valueOf (e : Elem) (s : Str × Nat) (p : List (Str × Nat))
         have := ih w s2 (fun q hq => hp q (by simp [hq]))
         simpa [renderStep] using this
 
+/-! ### `findall`: every reported pair resolves through `_get` -/
+
+mutual
+/-- every tag below is addressable by `_get` -/
+def goodV : XVal → Bool
+  | .text _ => true
+  | .nodes items => goodItems items
+def goodItems : List Item → Bool
+  | [] => true
+  | (t, _, v) :: rest => goodTag t && goodV v && goodItems rest
+end
+
+def countTag (t : Str) : List Item → Nat
+  | [] => 0
+  | (t', _, _) :: rest => (if t' = t then 1 else 0) + countTag t rest
+
+def HitOK (root : XVal) (h : Hit) : Prop := getL root h.1 = .ok (some h.2)
+def AllOK (root : XVal) (hs : List Hit) : Prop := ∀ h ∈ hs, HitOK root h
+def ResOK (root : XVal) (o : Out) : Prop := ∀ hs, o.res = some hs → AllOK root hs
+def LoopOK (root : XVal) : LoopOut → Prop
+  | .retNone _ => True
+  | .ret f _ => AllOK root f
+  | .brk f _ _ => AllOK root f
+def SumOK (root : XVal) : LoopOut ⊕ (List Hit × Bool) → Prop
+  | .inl out => LoopOK root out
+  | .inr p => AllOK root p.1
+
+/-- the specification of one closure "recurse into the value `v`" -/
+def FnOK (root : XVal) (v : XVal) (fn : Fn) : Prop :=
+  ∀ sought passed any ff o, getL root passed = .ok (some v) →
+    fn sought passed any ff = .ok o → ResOK root o
+
+theorem getL_append (root : XVal) (p q : List Str) (v : XVal)
+    (h : getL root p = .ok (some v)) : getL root (p ++ q) = getL v q := by
+  induction p generalizing root with
+  | nil => simp [getL] at h; subst h; rfl
+  | cons s p ih =>
+    rw [List.cons_append]
+    rw [getL] at h
+    rw [getL]
+    cases hs : getStep s with
+    | error e => rw [hs] at h; simp at h
+    | ok ni =>
+      obtain ⟨name, idx⟩ := ni
+      rw [hs] at h
+      simp only at h ⊢
+      cases root with
+      | text t => simp at h
+      | nodes items =>
+        simp only at h ⊢
+        cases hsc : scanItems items name idx with
+        | none => rw [hsc] at h; simp at h
+        | some w =>
+          rw [hsc] at h
+          simp only at h ⊢
+          exact ih w h
+
+theorem scan_pre (t : Str) (a : Attr) (v : XVal) (post pre : List Item) :
+    scanItems (pre ++ (t, a, v) :: post) t (countTag t pre : Int) = some v := by
+  induction pre with
+  | nil => simp [scanItems, countTag]
+  | cons it pre ih =>
+    obtain ⟨t', a', v'⟩ := it
+    simp only [List.cons_append, scanItems, countTag]
+    by_cases h : t' = t
+    · simp only [h, if_true]
+      have : ((1 + countTag t pre : Nat) : Int) ≠ 0 := by omega
+      simp only [this, if_false]
+      have e : ((1 + countTag t pre : Nat) : Int) - 1 = (countTag t pre : Int) := by omega
+      rw [e]; exact ih
+    · simp only [h, if_false, Nat.zero_add]
+      exact ih
+
+theorem name_resolves (st : Step) (t : Str) (a : Attr) (v : XVal) (pre post : List Item)
+    (hg : goodTag t = true) :
+    getL (.nodes (pre ++ (t, a, v) :: post)) [stepName st t (countTag t pre)] = .ok (some v) := by
+  unfold stepName
+  by_cases hc : (idxTruthy st.idx || countTag t pre != 0) = true
+  · simp only [hc, if_true]
+    rw [getL, getStep_indexed t hg]
+    simp only [scan_pre, getL]
+  · simp only [hc]
+    have h0 : countTag t pre = 0 := by
+      simp at hc; exact hc.2
+    simp only [Bool.false_eq_true, if_false, List.append_nil]
+    rw [getL, getStep_plain t hg]
+    have := scan_pre t a v post pre
+    rw [h0] at this
+    simp only [Int.natCast_zero] at this
+    simp only [this, getL]
+
+theorem cnt_incr (m : List (Str × Nat)) (k k' : Str) :
+    cnt (incr m k) k' = if k' = k then cnt m k + 1 else cnt m k' := by
+  induction m with
+  | nil =>
+    by_cases h : k' = k <;> simp [incr, cnt, h]
+  | cons e m ih =>
+    obtain ⟨k0, n⟩ := e
+    simp only [incr]
+    by_cases h0 : k = k0
+    · subst h0
+      by_cases h : k' = k <;> simp [cnt, h]
+    · simp only [h0, if_false, cnt]
+      by_cases h : k' = k
+      · subst h; simp [h0, ih]
+      · have h0' : ¬ k0 = k := fun e => h0 e.symm
+        by_cases h1 : k' = k0 <;> simp [h, h1, ih, h0']
+
+theorem countTag_append (t : Str) (pre : List Item) (it : Item) :
+    countTag t (pre ++ [it]) = countTag t pre + (if it.1 = t then 1 else 0) := by
+  induction pre with
+  | nil => obtain ⟨t', a, v⟩ := it; simp [countTag]
+  | cons x pre ih =>
+    obtain ⟨t', a, v⟩ := x
+    simp only [List.cons_append, countTag, ih]; omega
+
+theorem goodItems_mid (pre post : List Item) (t : Str) (a : Attr) (v : XVal)
+    (h : goodItems (pre ++ (t, a, v) :: post) = true) : goodTag t = true ∧ goodV v = true := by
+  induction pre with
+  | nil => simp [goodItems] at h; exact ⟨h.1.1, h.1.2⟩
+  | cons x pre ih =>
+    obtain ⟨t', a', v'⟩ := x
+    simp [goodItems] at h
+    exact ih h.2
+
+theorem afterCall_ok (root : XVal) (r : Res) (found : List Hit) (any : Nat)
+    (hr : ∀ o, r = .ok o → ResOK root o) (hf : AllOK root found)
+    (x : LoopOut ⊕ (List Hit × Bool)) (h : afterCall r found any = .ok x) : SumOK root x := by
+  unfold afterCall at h
+  split at h
+  · simp at h
+  · simp at h; subst h; exact hf
+  · rename_i hs ff
+    have hhs : AllOK root hs := hr _ rfl hs rfl
+    have happ : AllOK root (found ++ hs) := by
+      intro h hh
+      rcases List.mem_append.1 hh with h1 | h1
+      · exact hf h h1
+      · exact hhs h h1
+    split at h <;> (simp at h; subst h; exact happ)
+
+theorem guarded_ok (root : XVal) (c : Bool) (r : Unit → Res) (found : List Hit) (ff : Bool) (any : Nat)
+    (hr : ∀ o, r () = .ok o → ResOK root o) (hf : AllOK root found)
+    (x : LoopOut ⊕ (List Hit × Bool)) (h : guarded c r found ff any = .ok x) : SumOK root x := by
+  unfold guarded at h
+  split at h
+  · exact afterCall_ok root _ found any hr hf x h
+  · simp at h; subst h; exact hf
+
+theorem forLoop_ok (F : Bool) (root : XVal) (st : Step) (sought passed : List Str) (any : Nat)
+    (post : List Item) :
+    ∀ (pre : List Item) (found : List Hit) (idxs : List (Str × Nat)) (ff : Bool) (out : LoopOut),
+    getL root passed = .ok (some (.nodes (pre ++ post))) →
+    goodItems (pre ++ post) = true →
+    (∀ t, tagTest st t any = true → cnt idxs t = countTag t pre) →
+    AllOK root found →
+    (∀ it ∈ post, FnOK root it.2.2 (recurse F it.2.2)) →
+    forLoop st sought passed any (kidFns F post) found idxs ff = .ok out → LoopOK root out := by
+  induction post with
+  | nil =>
+    intro pre found idxs ff out _ _ _ hf _ h
+    simp [kidFns, forLoop] at h
+    subst h; exact hf
+  | cons it post ih =>
+    obtain ⟨t, a, v⟩ := it
+    intro pre found idxs ff out hroot hgood hcnt hf hP h
+    simp only [kidFns, forLoop] at h
+    have hPv : FnOK root v (recurse F v) := hP (t, a, v) (by simp)
+    have hP' : ∀ it ∈ post, FnOK root it.2.2 (recurse F it.2.2) := fun it hit => hP it (by simp [hit])
+    have hsplit : pre ++ (t, a, v) :: post = (pre ++ [(t, a, v)]) ++ post := by simp
+    by_cases htt : tagTest st t any = true
+    · simp only [htt, if_true] at h
+      have hgt := goodItems_mid pre post t a v hgood
+      have hname : getL root (passed ++ [stepName st t (cnt idxs t)]) = .ok (some v) := by
+        rw [getL_append _ _ _ _ hroot, hcnt t htt]
+        exact name_resolves st t a v pre post hgt.1
+      have hcnt' : ∀ t', tagTest st t' any = true → cnt (incr idxs t) t' = countTag t' (pre ++ [(t, a, v)]) := by
+        intro t' ht'
+        rw [cnt_incr, countTag_append]
+        by_cases e : t' = t
+        · subst e; simp [hcnt t' ht']
+        · have e' : ¬ (t = t') := fun h => e h.symm
+          simp [e, e', hcnt t' ht']
+      cases hg1 : guarded (idxOk st.idx (cnt idxs t) && condHolds st.cond v)
+          (fun _ => recurse F v (sought.drop 1) (passed ++ [stepName st t (cnt idxs t)]) any ff) found ff any with
+      | error e => rw [hg1] at h; simp at h
+      | ok x1 =>
+        have hx1 := guarded_ok root _ _ found ff any (fun o ho => hPv _ _ _ _ o hname ho) hf x1 hg1
+        rw [hg1] at h
+        cases x1 with
+        | inl o1 => simp at h; subst h; exact hx1
+        | inr p1 =>
+          obtain ⟨found1, ff1⟩ := p1
+          simp only at h
+          cases hg2 : guarded (any == 1)
+              (fun _ => recurse F v sought (passed ++ [stepName st t (cnt idxs t)]) any ff1) found1 ff1 any with
+          | error e => rw [hg2] at h; simp at h
+          | ok x2 =>
+            have hx2 := guarded_ok root _ _ found1 ff1 any (fun o ho => hPv _ _ _ _ o hname ho) hx1 x2 hg2
+            rw [hg2] at h
+            cases x2 with
+            | inl o2 => simp at h; subst h; exact hx2
+            | inr p2 =>
+              obtain ⟨found2, ff2⟩ := p2
+              simp only at h
+              exact ih (pre ++ [(t, a, v)]) found2 (incr idxs t) ff2 out (hsplit ▸ hroot) (hsplit ▸ hgood)
+                hcnt' hx2 hP' h
+    · simp only [htt] at h
+      have hcnt' : ∀ t', tagTest st t' any = true → cnt idxs t' = countTag t' (pre ++ [(t, a, v)]) := by
+        intro t' ht'
+        rw [countTag_append, hcnt t' ht']
+        have : ¬ (t = t') := by intro e; subst e; exact htt ht'
+        simp [this]
+      exact ih (pre ++ [(t, a, v)]) found idxs ff out (hsplit ▸ hroot) (hsplit ▸ hgood) hcnt' hf hP' h
+
+/-- what is known about the closures of the children of `v` -/
+def KidsOK (F : Bool) (root v : XVal) (kids : List Kid) : Prop :=
+  ∀ items, v = .nodes items → kids = kidFns F items ∧ goodItems items = true ∧
+    ∀ it ∈ items, FnOK root it.2.2 (recurse F it.2.2)
+
+theorem iter_ok (F : Bool) (root v : XVal) (kids : List Kid) (sought passed : List Str) (any : Nat)
+    (found : List Hit) (ff : Bool) (out : LoopOut)
+    (hroot : getL root passed = .ok (some v)) (hk : KidsOK F root v kids) (hf : AllOK root found)
+    (h : iter v kids sought passed any found ff = .ok out) : LoopOK root out := by
+  unfold iter at h
+  simp only at h
+  generalize (if any = 2 then star2 else sought.headD []) = cur at h
+  split at h
+  · simp at h; subst h; trivial
+  · split at h
+    · simp at h
+    · rename_i st _
+      split at h
+      · rename_i hne
+        cases v with
+        | text t => simp [isNonEmptyNodes] at hne
+        | nodes items =>
+          obtain ⟨hkids, hgood, hP⟩ := hk items rfl
+          rw [hkids] at h
+          exact forLoop_ok F root st sought passed _ items [] found [] ff out (by simpa using hroot)
+            (by simpa using hgood) (by intro t _; simp [cnt, countTag]) hf hP h
+      · simp at h; subst h
+        show AllOK root _
+        split
+        · intro x hx
+          rcases List.mem_append.1 hx with h1 | h1
+          · exact hf x h1
+          · simp at h1; subst h1; exact hroot
+        · exact hf
+
+theorem finish_ok (F : Bool) (root v : XVal) (passed : List Str) (ff : Bool) (o : Out)
+    (hroot : getL root passed = .ok (some v)) (h : finish F v passed ff = .ok o) : ResOK root o := by
+  unfold finish at h
+  simp at h; subst h
+  intro hs hhs
+  simp at hhs; subst hhs
+  intro x hx
+  simp at hx; subst hx; exact hroot
+
+theorem loopEmpty_ok (F : Bool) (root v : XVal) (kids : List Kid) (passed : List Str) (any : Nat)
+    (found : List Hit) (ff : Bool) (o : Out)
+    (hroot : getL root passed = .ok (some v)) (hk : KidsOK F root v kids) (hf : AllOK root found)
+    (h : loopEmpty F v kids passed any found ff = .ok o) : ResOK root o := by
+  unfold loopEmpty at h
+  split at h
+  · cases hi : iter v kids [] passed any found ff with
+    | error e => rw [hi] at h; simp at h
+    | ok lo =>
+      have hlo := iter_ok F root v kids [] passed any found ff lo hroot hk hf hi
+      rw [hi] at h
+      cases lo with
+      | retNone ff' => simp at h; subst h; intro hs hhs; simp at hhs
+      | ret f ff' => simp at h; subst h; intro hs hhs; simp at hhs; subst hhs; exact hlo
+      | brk f ff' any' =>
+        simp only at h
+        split at h
+        · simp at h
+        · exact finish_ok F root v passed ff' o hroot h
+  · exact finish_ok F root v passed ff o hroot h
+
+theorem whileLoop_ok (F : Bool) (root v : XVal) (kids : List Kid) (passed : List Str)
+    (hroot : getL root passed = .ok (some v)) (hk : KidsOK F root v kids) (n : Nat) :
+    ∀ (sought : List Str) (any : Nat) (found : List Hit) (ff : Bool) (o : Out),
+    sought.length ≤ n → AllOK root found →
+    whileLoop F v kids passed sought any found ff = .ok o → ResOK root o := by
+  induction n with
+  | zero =>
+    intro sought any found ff o hlen hf h
+    have : sought = [] := List.eq_nil_of_length_eq_zero (by omega)
+    subst this
+    rw [whileLoop] at h
+    exact loopEmpty_ok F root v kids passed any found ff o hroot hk hf h
+  | succ n ih =>
+    intro sought any found ff o hlen hf h
+    cases sought with
+    | nil =>
+      rw [whileLoop] at h
+      exact loopEmpty_ok F root v kids passed any found ff o hroot hk hf h
+    | cons a rest =>
+      rw [whileLoop] at h
+      cases hi : iter v kids (a :: rest) passed any found ff with
+      | error e => rw [hi] at h; simp at h
+      | ok lo =>
+        have hlo := iter_ok F root v kids (a :: rest) passed any found ff lo hroot hk hf hi
+        rw [hi] at h
+        cases lo with
+        | retNone ff' => simp at h; subst h; intro hs hhs; simp at hhs
+        | ret f ff' => simp at h; subst h; intro hs hhs; simp at hhs; subst hhs; exact hlo
+        | brk f ff' any' =>
+          simp only at h
+          cases rest with
+          | nil => exact loopEmpty_ok F root v kids passed any' f ff' o hroot hk hlo h
+          | cons b rest' =>
+            simp only at h
+            exact ih rest' any' f ff' o (by simp at hlen; omega) hlo h
+
+mutual
+theorem recurse_ok (F : Bool) (root : XVal) : ∀ (v : XVal), goodV v = true → FnOK root v (recurse F v)
+  | .text t, _ => by
+    intro sought passed any ff o hroot h
+    rw [recurse] at h
+    exact whileLoop_ok F root (.text t) [] passed hroot (by intro items hi; cases hi) _ sought any [] ff o
+      (Nat.le_refl _) (by intro x hx; cases hx) h
+  | .nodes items, hg => by
+    intro sought passed any ff o hroot h
+    rw [recurse] at h
+    have hgi : goodItems items = true := by simpa [goodV] using hg
+    have hk : KidsOK F root (.nodes items) (kidFns F items) := by
+      intro items' hi
+      cases hi
+      exact ⟨rfl, hgi, items_ok F root items hgi⟩
+    exact whileLoop_ok F root (.nodes items) _ passed hroot hk _ sought any [] ff o
+      (Nat.le_refl _) (by intro x hx; cases hx) h
+theorem items_ok (F : Bool) (root : XVal) : ∀ (items : List Item), goodItems items = true →
+    ∀ it ∈ items, FnOK root it.2.2 (recurse F it.2.2)
+  | [], _ => by intro it hit; cases hit
+  | (t, a, v) :: rest, hg => by
+    intro it hit
+    simp [goodItems] at hg
+    rcases List.mem_cons.1 hit with h | h
+    · subst h; exact recurse_ok F root v hg.1.2
+    · exact items_ok F root rest hg.2 it h
+end
+
+theorem findallL_resolves (F : Bool) (root : XVal) (hg : goodV root = true) (sought : List Str)
+    (hs : List Hit) (h : findallL F root sought = .ok (some hs)) :
+    ∀ p ∈ hs, getL root p.1 = .ok (some p.2) := by
+  unfold findallL at h
+  cases hr : recurse F root sought [] 0 false with
+  | error e => rw [hr] at h; simp at h
+  | ok o =>
+    rw [hr] at h
+    simp at h
+    exact recurse_ok F root root hg sought [] 0 false o rfl hr hs h
+
 end N0.NXml
